@@ -23,6 +23,7 @@ func init() {
 func c20(c *Ctx) {
 	c20R1345(c)
 	c20R2(c, "R2")
+	sTransferFlag(c, "R2/S-TRANSFER")
 	c20R6(c, "R6")
 }
 
